@@ -527,8 +527,8 @@ impl Property for C17 {
     }
     fn budget(&self, tier: Tier) -> Budget {
         match tier {
-            Tier::Quick => Budget { cases: 40_000, min_len: 8, max_len: 400 },
-            Tier::Thorough => Budget { cases: 3_000_000, min_len: 8, max_len: 600 },
+            Tier::Quick => Budget { cases: 500000, min_len: 8, max_len: 400 },
+            Tier::Thorough => Budget { cases: 10000000, min_len: 8, max_len: 600 },
         }
     }
 
